@@ -3,6 +3,7 @@ import M3d.Model.Surface
 import M3d.Model.MeshDiag
 import M3d.Model.MeshDiagSweep
 import M3d.Model.MeshDiagHist
+import M3d.Model.MeshDiagProbe
 /-!
 Line-protocol handler for C11.  Core-only.
 
@@ -24,11 +25,11 @@ The harness prints the same canonical form from the REAL outputs; a difference i
     diagd3 -> nr=<b> ie=<…>                               (degenerate faces allowed)
     clus3  -> <v>:<cluster>|<cluster> …                   (clusters of face indices per vertex)
     rnm3   -> ok groups=<idx:flag,…|…> flip=<idx…> n=<count> clean=<b>  |  panic:<msg>
-    rn3    -> flip=<idx…> n=<count> clean=<b>
+    rn3    -> flip=<idx…> n=<count> clean=<b>  |  unclear:<i> (something touches the normal line of face i within eps·65/64: never generated)
     rep3   -> cls=<min id of the class, per vertex> fix=1 nr=<b>
     hier3  -> ok nodes=<c0>|<c1>… par=<p…> full=ok cont=<bits>  |  panic:mesh_needs_repair
     diag2  -> man=<b> iv=<ids>
-    rn2    -> flip=<idx…> n=<count> clean=<b>
+    rn2    -> flip=<idx…> n=<count> clean=<b>  |  unclear:<i>
     rep2   -> cls=<…> fix=1 man=<b>
     hier2  -> like hier3  |  panic:mesh_must_be_manifold | panic:mesh_is_non-manifold
     hist3  -> one token per observation of the history `S <k> step…` applied to the mesh `I`
@@ -351,40 +352,125 @@ def handleRnm3 (ts : List Tri) : String :=
 
 /-! ### rn3 / rn2 -/
 
-/-- The point "just outside" face `t` along its normal, at distance about `eps`. -/
-def movedOut3 (cs : Array P3) (eps : Rat) (t : Tri) : P3 :=
-  let (a, b, c) := geoTri cs t
-  let n := cross3 (sub3 b a) (sub3 c a)
-  let center := scale3 (add3 (add3 a b) c) ((1 : Rat) / 3)
-  let len1 := (if n.x < 0 then -n.x else n.x) + (if n.y < 0 then -n.y else n.y) + (if n.z < 0 then -n.z else n.z)
-  if len1 == 0 then center else add3 center (scale3 n (eps / len1))
+def v3 (p : P3) : Vec3 Rat := ⟨p.x, p.y, p.z⟩
+def gtri (g : P3 × P3 × P3) : GTri Rat := (v3 g.1, v3 g.2.1, v3 g.2.2)
 
+def min3 (a b c : Rat) : Rat := min a (min b c)
+def max3 (a b c : Rat) : Rat := max a (max b c)
+
+/-- Where the mesh touches the line `m + u n` (closed test: edges and vertices count, a triangle
+whose plane contains the line counts with the whole range of its corners), as parameter intervals;
+the second component: every touch is a crossing through the interior of a triangle (the line is in
+general position, `crossesLine3` applies). -/
+def lineTouches3 (geo : List (GTri Rat)) (m n : Vec3 Rat) : List (Rat × Rat) × Bool :=
+  geo.foldl (fun (acc : List (Rat × Rat) × Bool) t =>
+    let a := v3sub t.1 m
+    let b := v3sub t.2.1 m
+    let c := v3sub t.2.2 m
+    let v1 := vol3 n a b
+    let v2 := vol3 n b c
+    let v3 := vol3 n c a
+    let weak := (v1 ≥ 0 && v2 ≥ 0 && v3 ≥ 0) || (v1 ≤ 0 && v2 ≤ 0 && v3 ≤ 0)
+    if !weak then acc else
+    let strict := (v1 > 0 && v2 > 0 && v3 > 0) || (v1 < 0 && v2 < 0 && v3 < 0)
+    let den := vdot (triCross t) n
+    if den != 0 then
+      let u := hitParam3 m n t
+      ((u, u) :: acc.1, acc.2 && strict)
+    else
+      let nn := vdot n n
+      let ua := vdot a n / nn
+      let ub := vdot b n / nn
+      let uc := vdot c n / nn
+      ((min3 ua ub uc, max3 ua ub uc) :: acc.1, false)) ([], true)
+
+/-- `rn3`: what `RepairNormals(eps)` must return; see `handleRn2`.  The probe is evaluated at
+distance `eps · |n|₂ / |n|₁ ∈ [eps/√3, eps]` from the centroid, nothing may touch the normal line up
+to distance `eps · 65/64` (`repair_normals3_offset_irrelevant_within_clearance`), and for normal
+lines in general position the count along the normal (`evenOddRay3`) must agree with the generic
+directions. -/
 def handleRn3 (ts : List Tri) (eps : Rat) (cs : Array P3) : String :=
-  let geo := ts.map (geoTri cs)
-  let flags := ts.map fun t => inside3 geo (movedOut3 cs eps t)
-  if flags.any (·.isNone) then "degenerate" else
-  let fl := flags.map (·.getD false)
+  let geoP := ts.map (geoTri cs)
+  let geo := geoP.map gtri
+  let bound := eps * 65 / 64
+  let per := geo.map fun g =>
+    let n := triCross g
+    let len1 := (if n.x < 0 then -n.x else n.x) + (if n.y < 0 then -n.y else n.y) + (if n.z < 0 then -n.z else n.z)
+    if len1 == 0 then (none, true, true) else
+    let m := triCentre ((1 : Rat) / 3) g
+    let probe := probeAt3 ((1 : Rat) / 3) (eps / len1) g
+    let spec := inside3 geoP ⟨probe.x, probe.y, probe.z⟩
+    let (touches, generic) := lineTouches3 geo m n
+    let clear := touches.all fun iv => iv.2 ≤ 0 || (iv.1 > 0 && iv.1 * iv.1 * vdot n n > bound * bound)
+    let rayOk := !generic || spec == some (evenOddRay3 geo probe n)
+    (spec, clear, rayOk)
+  if per.any (·.1.isNone) then "degenerate" else
+  match per.findIdx? (!·.2.1) with
+  | some i => s!"unclear:{i}"
+  | none =>
+  let fl := per.map (·.1.getD false)
   let idx := ((List.range ts.length).zip fl).filter (·.2) |>.map (·.1)
   let r := repairNormals (fun f => fl.getD f.1 false) ts
-  s!"flip={showNats idx} n={r.2} clean={boolStr (edgeBalanced r.1)}"
+  s!"flip={showNats idx} n={r.2} clean={boolStr (edgeBalanced r.1)}" ++
+    (if per.any (!·.2.2) then " MODELDIFF:ray-direction" else "")
 
-def movedOut2 (cs : Array P2) (eps : Rat) (s : Seg) : P2 :=
-  let (a, b) := geoSeg cs s
-  -- model2d Segment.Normal: (-dy, dx) normalised
-  let d : P2 := ⟨b.x - a.x, b.y - a.y⟩
-  let n : P2 := ⟨-d.y, d.x⟩
-  let mid : P2 := ⟨(a.x + b.x) / 2, (a.y + b.y) / 2⟩
-  let len1 := (if n.x < 0 then -n.x else n.x) + (if n.y < 0 then -n.y else n.y)
-  if len1 == 0 then mid else ⟨mid.x + n.x * (eps / len1), mid.y + n.y * (eps / len1)⟩
+def v2 (p : P2) : Vec2 Rat := ⟨p.x, p.y⟩
+def gseg (g : P2 × P2) : GSeg Rat := (v2 g.1, v2 g.2)
 
+/-- Where the mesh touches the normal line of `g` (closed test: end points on the line and segments
+lying in the line count): parameter intervals in units of the left vector `n`, measured from `m`. -/
+def lineTouches (geo : List (GSeg Rat)) (m n : Vec2 Rat) : List (Rat × Rat) :=
+  geo.filterMap fun s =>
+    let sa := sideOf m n s.1
+    let sb := sideOf m n s.2
+    if sa * sb > 0 then none
+    else if sa == 0 && sb == 0 then
+      let ua := (s.1.sub m).dot n / n.normSq
+      let ub := (s.2.sub m).dot n / n.normSq
+      some (min ua ub, max ua ub)
+    else
+      let u := hitParam m n s
+      some (u, u)
+
+/-- Nothing touches the normal line of `g` within the Euclidean distance `bound` in front of the
+midpoint (on the left): every touch interval lies at parameters `≤ 0` or beyond `bound / |n|`. -/
+def clearWithin (geo : List (GSeg Rat)) (g : GSeg Rat) (bound : Rat) : Bool :=
+  let m := segMid ((1 : Rat) / 2) g
+  let n := segLeft g
+  (lineTouches geo m n).all fun iv =>
+    iv.2 ≤ 0 || (iv.1 > 0 && iv.1 * iv.1 * n.normSq > bound * bound)
+
+/-- `rn2`: what `RepairNormals(eps)` must return.  A segment is reversed iff the region just to the
+left of its midpoint is inside by the even–odd rule (exact, generic ray directions).  The region is
+evaluated at the point of the normal line at distance `eps · |n|₂ / |n|₁ ∈ [eps/√2, eps]`; the
+driver checks that nothing touches the normal line up to distance `eps · 65/64`
+(`repair_normals2_offset_irrelevant_within_clearance`: inside that stretch the offset is
+irrelevant, so the point of the source, at distance `eps`, must get the same answer; otherwise
+`unclear:<i>` — the generator never produces that), and that counting along the normal
+(`evenOddRay`, the model the theorem is about) agrees with the generic directions
+(`MODELDIFF:ray-direction`). -/
 def handleRn2 (ss : List Seg) (eps : Rat) (cs : Array P2) (normalSign : Rat) : String :=
-  let geo := ss.map (geoSeg cs)
-  let flags := ss.map fun s => inside2 geo (movedOut2 cs (eps * normalSign) s)
-  if flags.any (·.isNone) then "degenerate" else
-  let fl := flags.map (·.getD false)
+  let geoP := ss.map (geoSeg cs)
+  let geo := geoP.map gseg
+  let eps := eps * normalSign
+  let per := (geoP.zip geo).map fun (gp, g) =>
+    let n := segLeft g
+    let len1 := (if n.x < 0 then -n.x else n.x) + (if n.y < 0 then -n.y else n.y)
+    if len1 == 0 then (none, true, true) else
+    let probe := probeAt ((1 : Rat) / 2) (eps / len1) g
+    let spec := inside2 geoP ⟨probe.x, probe.y⟩
+    let ray := evenOddRay geo probe n
+    let _ := gp
+    (spec, clearWithin geo g (eps * 65 / 64), spec == some ray)
+  if per.any (·.1.isNone) then "degenerate" else
+  match per.findIdx? (!·.2.1) with
+  | some i => s!"unclear:{i}"
+  | none =>
+  let fl := per.map (·.1.getD false)
   let idx := ((List.range ss.length).zip fl).filter (·.2) |>.map (·.1)
   let r := repairNormals2 (fun f => fl.getD f.1 false) ss
-  s!"flip={showNats idx} n={r.2} clean={boolStr (closedCurves r.1)}"
+  s!"flip={showNats idx} n={r.2} clean={boolStr (closedCurves r.1)}" ++
+    (if per.any (!·.2.2) then " MODELDIFF:ray-direction" else "")
 
 /-! ### rep3 / rep2 -/
 
